@@ -675,6 +675,12 @@ package gorums
 //@ field channel.streamCtx guarded_by streamMut props C15
 //@ field channel.cancelStream guarded_by streamMut props C15
 //@ field channel.sendQ immutable props C15
+// The two ends of the send queue: only enqueue sends (so everything the sender goroutine receives
+// satisfies enqueue's precondition - the guarantee side of the sender's rely clause - and was
+// registered before it was queued), only the node's sender goroutine and the drain at Close receive
+// (one consumer per node: per-node FIFO, C03.b). The channel is never copied or passed on.
+//@ field channel.sendQ senders (*channel).enqueue props C03 C05 C12 C15
+//@ field channel.sendQ receivers (*channel).sender (*channel).failQueued props C03 C05 C12 C15
 //@ field channel.node immutable props C15
 //@ field channel.parentCtx immutable props C15
 //@ field channel.backoffCfg immutable props C15
